@@ -169,10 +169,10 @@ def _c20(tier):
 
 
 def _c19(tier):
-    wu = "stream write of 3 items, canonical payload (u8: buffer is the vector itself), host answers COMPLETED(k)/DROPPED(k)/BLOCKED, events, cancel answers incl. CANCELLED(k): "
-    wv = "stream write of 3 items, lifted payload with lists (lower at start; per-item ownership ledger): "
-    ru = "stream read into capacity 3, canonical payload (u8), host stores k items: "
-    rv = "stream read into capacity 3, lifted payload (scratch buffer + lift per item; ownership ledger): "
+    wu = "stream write of 2 items, canonical payload (u8: buffer is the vector itself), host answers COMPLETED(k)/DROPPED(k)/BLOCKED, events, cancel answers incl. CANCELLED(k): "
+    wv = "stream write of 2 items, lifted payload with lists (lower at start; per-item ownership ledger): "
+    ru = "stream read into capacity 2, canonical payload (u8), host stores k items: "
+    rv = "stream read into capacity 2, lifted payload (scratch buffer + lift per item; ownership ledger): "
     ab = "AbiBuffer one-step from every valid state (new; advance(a); advance(b); abi_ptr_and_len; remaining; into_vec or drop), "
     hs = [
         H("c19_return_code_valid", "ReturnCode::decode on all valid encodings of the 2^32 inputs: BLOCKED, (amount << 4) | {COMPLETED, DROPPED, CANCELLED}", 30, stubs=False),
@@ -184,35 +184,36 @@ def _c19(tier):
         H("c19_abibuf_val_len1", ab + "lifted payload, 1 item", 40, stubs=False, leak=True),
         H("c19_abibuf_val_len3", ab + "lifted payload, 3 items", 60, stubs=False, leak=True),
         H("c19_write_u8_pc", wu + "poll; cancel()", 150, leak=True),
-        H("c19_write_u8_pec", wu + "poll; event; cancel() racing the queued completion", 200, leak=True),
-        H("c19_write_u8_pep", wu + "poll; event; poll", 200, leak=True),
+        H("c19_write_u8_pec", wu + "poll; event; cancel() racing the queued completion", 300, leak=True),
+        H("c19_write_u8_pep", wu + "poll; event; poll", 350, leak=True),
         H("c19_write_u8_pd", wu + "poll; write future dropped mid-flight", 150, leak=True),
         H("c19_write_u8_ped", wu + "poll; event; dropped with the completion queued", 200, leak=True),
-        H("c19_write_u8_len0_pc", "zero-length stream write (u8): poll; cancel()", 100, leak=True),
-        H("c19_write_val_pc", wv + "poll; cancel()", 250, leak=True),
-        H("c19_write_val_pep", wv + "poll; event; poll", 300, leak=True),
-        H("c19_write_val_pd", wv + "poll; dropped mid-flight", 250, leak=True),
-        H("c19_write_all_u8", "write_all of 3 u8 items over <= 3 rendezvous (each may block and be completed by an event, partial counts, reader drop)", 400, leak=True),
-        H("c19_write_one_u8", "write_one(u8): sent, or handed back when the reader is gone", 250, leak=True),
+        H("c19_write_u8_len0_pc", "zero-length stream write (u8): poll; cancel()", 150, leak=True),
+        H("c19_write_val_pd", wv + "poll; dropped mid-flight (every untransferred value lifted back and dropped once)", 400, leak=True),
         H("c19_read_u8_pc", ru + "poll; cancel()", 150, leak=True),
         H("c19_read_u8_pec", ru + "poll; event; cancel() racing the queued completion", 200, leak=True),
-        H("c19_read_u8_pep", ru + "poll; event; poll", 200, leak=True),
-        H("c19_read_u8_pd", ru + "poll; read future dropped mid-flight", 150, leak=True),
-        H("c19_read_u8_ped", ru + "poll; event; dropped with the completion queued", 200, leak=True),
-        H("c19_read_val_pc", rv + "poll; cancel()", 250, leak=True),
-        H("c19_read_val_pep", rv + "poll; event; poll", 300, leak=True),
-        H("c19_read_val_pd", rv + "poll; dropped mid-flight", 250, leak=True),
-        H("c19_next_u8", "RawStreamReader::next (capacity 1): item, or None at end of stream", 250, leak=True),
+        H("c19_read_u8_pep", ru + "poll; event; poll", 150, leak=True),
+        H("c19_read_u8_pd", ru + "poll; read future dropped mid-flight", 120, leak=True),
+        H("c19_read_u8_ped", ru + "poll; event; dropped with the completion queued", 100, leak=True),
+        H("c19_read_val_pd", rv + "poll; dropped mid-flight (every received item lifted once and dropped once)", 300, leak=True),
+        H("c19_next_u8", "RawStreamReader::next (capacity 1): item, or None at end of stream", 450, leak=True),
     ]
     if tier == "thorough":
+        w3 = "stream write of 3 items, canonical payload: "
+        r3 = "stream read into capacity 3, canonical payload: "
         hs += [
             H("c19_deep_abibuf_u8_len2", ab + "u8, 2 items", 40, stubs=False, leak=True),
             H("c19_deep_abibuf_val_len2", ab + "lifted payload, 2 items", 50, stubs=False, leak=True),
-            H("c19_deep_write_val_pec", wv + "poll; event; cancel() racing the queued completion", 300, leak=True),
-            H("c19_deep_write_val_ped", wv + "poll; event; dropped with the completion queued", 300, leak=True),
-            H("c19_deep_write_all_val", "write_all of 3 lifted items over <= 3 rendezvous", 600, leak=True),
-            H("c19_deep_read_val_pec", rv + "poll; event; cancel() racing the queued completion", 300, leak=True),
-            H("c19_deep_read_val_ped", rv + "poll; event; dropped with the completion queued", 300, leak=True),
+            H("c19_write_val_pc", wv + "poll; cancel() (needs ~10 GB)", 900, leak=True),
+            H("c19_deep_write_u8_len3_pc", w3 + "poll; cancel()", 300, leak=True),
+            H("c19_deep_write_u8_len3_pec", w3 + "poll; event; cancel()", 500, leak=True),
+            H("c19_deep_write_u8_len3_pep", w3 + "poll; event; poll", 600, leak=True),
+            H("c19_deep_write_u8_len3_pd", w3 + "poll; dropped mid-flight", 300, leak=True),
+            H("c19_deep_write_val_len3_pd", "stream write of 3 items, lifted payload: poll; dropped mid-flight", 500, leak=True),
+            H("c19_deep_read_u8_cap3_pc", r3 + "poll; cancel()", 200, leak=True),
+            H("c19_deep_read_u8_cap3_pec", r3 + "poll; event; cancel()", 250, leak=True),
+            H("c19_deep_read_u8_cap3_pep", r3 + "poll; event; poll", 250, leak=True),
+            H("c19_deep_read_u8_cap3_pd", r3 + "poll; dropped mid-flight", 150, leak=True),
         ]
     return hs
 
@@ -291,12 +292,12 @@ BOUNDS["C18"] = {
     "thorough": {"operations": 1, "tasks": "1 or 2", "host_events": "<= 2", "polls": "<= 4", "schedules": "29 fixed scripts", "unwind": 2},
 }
 BOUNDS["C19"] = {
-    "quick": {"streams": 1, "ends_per_harness": 1, "vector_len": "0, 1, 3 (AbiBuffer) / 3 (write) / capacity 3 (read) / 1 (write_one, next)",
-              "host_events": "<= 1 per operation; write_all: <= 3 rendezvous", "transfer_counts": "symbolic k <= remaining", "item_width": "1 byte",
+    "quick": {"streams": 1, "ends_per_harness": 1, "vector_len": "0, 1, 3 (AbiBuffer) / 0, 2 (write) / capacity 2 (read) / 1 (next)",
+              "host_events": "<= 1 per operation", "transfer_counts": "symbolic k <= remaining", "item_width": "1 byte",
               "payload": ["canonical u8", "lifted with lists (ownership ledger)"], "task_abi": "v1/v2 symbolic", "unwind": 5,
               "return_code": "all 2^32 inputs"},
 }
-BOUNDS["C19"]["thorough"] = dict(BOUNDS["C19"]["quick"], vector_len="0..3")
+BOUNDS["C19"]["thorough"] = dict(BOUNDS["C19"]["quick"], vector_len="0..3 (AbiBuffer) / 0, 2, 3 (write) / capacity 2, 3 (read)")
 BOUNDS["C20"] = {
     "quick": {"futures": 1, "ends_per_harness": 1, "host_events": "<= 1 per operation", "polls": "<= 2", "payload": "1-byte buffer, or zero-sized",
               "task_abi": "raw/read scenarios: v1/v2 symbolic; typed scenarios: v2", "unwind": 3},
@@ -338,6 +339,12 @@ OUTSIDE["C18"] = [
     "the concrete stream/future/subtask operations are exercised against the same mock task in C19/C20/C21",
 ]
 OUTSIDE["C19"] = [
+    "write_all / write_one (several rendezvous inside one async fn): CBMC's symbolic execution does not finish within 900 s even for one item "
+    "(each unwinding of the `while let` loop re-instantiates a whole write operation); the single-write harnesses cover each rendezvous",
+    "lifted payload combined with host events or with cancel of a read (write_val_pep, read_val_pep, read_val_pc, ...): CBMC exceeds the 12 GB cap even "
+    "with one item (AbiBuffer::take_vec's lift loop is re-instantiated at every drop site of the operation state); the lifted payload is covered by the "
+    "AbiBuffer one-step harnesses (all states), by write/read dropped mid-flight, and (thorough tier) by write + cancel; the event paths are payload-"
+    "independent and are covered with the canonical payload",
     "RawStreamReader::collect (Vec growth over several reads) and the futures-stream adapter (pulls in the `futures` crate)",
     "vectors longer than 3 items; items wider than one byte; more than one stream; both ends inside one component instance",
     "the inter-task / unit-stream helpers",
